@@ -25,19 +25,22 @@ PROPERTY = "C09"
 LEVEL = "exploration"
 RULE = (
     "Hypothesis draws 1-3 external variables (sizes 1-2), a tree of depth <=3 whose inner nodes are 'chain' "
-    "(children see the writes of their elder siblings) or 'parallel' (children see the state before the node; "
-    "distinct written names) and whose <=9 leaves are polynomial disciplines of degree <=2 (one third purely linear) "
+    "(children see the writes of their elder siblings) or 'parallel' (children see the state before the node; written "
+    "names are distinct unless the node's 'share' option makes the last child write the same name as the first one - the "
+    "later member has the priority, as in MDOParallelChain._execute) and whose <=9 leaves are polynomial disciplines of degree <=2 (one third purely linear) "
     "reading 1-3 visible variables (biased to the most recent ones: diamonds, fan-in/out, pass-through) and writing new "
     "variables, updating one of their inputs in place or overwriting any visible variable; per leaf the Jacobian "
     "container (dense, csr, JacobianOperator) and whether it fills only the requested pairs. Top level: the tree itself "
     "(MDOChain/MDOParallelChain nesting), the leaves flattened and shuffled into MDAChain (chain_linearize on/off, single "
-    "assignment), or MDOAdditiveChain over parallel children all writing the summed variable. Then 1-4 requests: execute, "
+    "assignment), or MDOAdditiveChain over parallel children all writing the 1-2 summed variables, alone or followed by a downstream leaf "
+    "in an MDOChain. Then 1-4 requests: execute, "
     "linearize(compute_all_jacobians), or add_differentiated_inputs/outputs(subset)+linearize, at one of the 1-2 drawn "
     "points or at the first point with only one drawn process input moved (sub-discipline caches are hit); the top-level "
     "process keeps its single-entry cache or gets a MemoryFullCache (1 in 3); the first member of an additive top may be "
-    "restricted to the oldest external variable. Eleven hand-made payloads (diamond closing at a cached last member, linear "
+    "restricted to the oldest external variable. Seventeen hand-made payloads (diamond closing at a cached last member, linear "
     "in-place update, additive chain whose first member is served from its cache, execute(p1)/execute(p2)/linearize(p1) "
-    "with a memory-full cache on MDAChain and MDOChain) are run first. Reference: forward-mode tangent propagation of the exact partials along the execution order. "
+    "with a memory-full cache on MDAChain and MDOChain, parallel members sharing an output alone and nested, additive chain with "
+    "two sums of which one is requested directly or through a downstream leaf) are run first. Reference: forward-mode tangent propagation of the exact partials along the execution order. "
     "Non-trivial = some output reached from an external variable by >=2 paths (diamond) or an overwritten variable, "
     "and a strict-subset request that was answered; distinct = structural hash of the payload."
 )
@@ -45,11 +48,12 @@ ASSUMPTIONS = [
     "'for all input points' is sampled at 1-2 half-integer points per case; the disciplines are polynomials of degree <=2 "
     "with small dyadic coefficients, so reference and implementation agree to rounding: tolerance 1e-10*(1+|J|_max) "
     "(1e-8 for MDAChain with chain_linearize=False, whose total derivatives go through a linear solve)",
-    "in a parallel node no two children write the same variable (except the summed variable of an additive chain) "
-    "and MDAChain compositions are single-assignment: each variable has one producer",
+    "in a parallel node two children write the same variable only through the 'share' option (the reference keeps the later "
+    "member's value and derivative, which is what MDOParallelChain._execute returns) or for the summed variables of an additive "
+    "chain; MDAChain compositions are single-assignment: each variable has one producer",
     "requested names are inputs/outputs of the process grammar; the MDA residual-norm output is never requested",
     "extra blocks returned beyond the request are not judged",
-    "cases falling in the classes of the open ledger entries (C09-F3, F5, F8, F9 at the time of writing) are skipped (counted in excluded_by_known_finding); "
+    "cases falling in the classes of the open ledger entries (C09-F3, F5, F8, F9, F10 at the time of writing) are skipped (counted in excluded_by_known_finding); "
     "the predicates are structural (computed from the payload), somewhat wider than the exact failing sets",
 ]
 
@@ -96,7 +100,10 @@ def _leaf():
 
 def _inner(children, lo=2, hi=3):
     return st.fixed_dictionaries({"k": st.sampled_from(["chain", "chain", "parallel"]), "c": st.lists(children, min_size=lo, max_size=hi),
-                                  "threads": st.sampled_from([1, 1, 2])})
+                                  "threads": st.sampled_from([1, 1, 2]),
+                                  # parallel nodes: 1/2 = the last child's last leaf writes the SAME name as the first child's
+                                  # last leaf (the later one has the priority); 2 = it also takes the earlier leaf's inputs
+                                  "share": st.sampled_from([0, 0, 1, 2])})
 
 
 @st.composite
@@ -107,9 +114,12 @@ def compositions(draw):
     if top == "additive":
         root = {"k": "parallel", "first_reads_oldest": draw(st.booleans()), "c": draw(st.lists(st.one_of(_leaf(), _leaf(), _inner(_leaf(), 2, 2).map(lambda d: {**d, "k": "chain"})),
                                                    min_size=2, max_size=3)), "threads": 1}
+        n_sums = draw(st.sampled_from([1, 2, 2]))
+        tail = draw(st.one_of(st.none(), _leaf()))
     else:
         root = {"k": draw(st.sampled_from(["chain", "chain", "chain", "parallel"])), "c": draw(st.lists(level1, min_size=2, max_size=4)),
-                "threads": draw(st.sampled_from([1, 1, 2]))}
+                "threads": draw(st.sampled_from([1, 1, 2])), "share": draw(st.sampled_from([0, 0, 1, 2]))}
+        n_sums, tail = 1, None
     n_ext = draw(st.sampled_from([1, 2, 2, 3])) if top == "additive" else draw(st.integers(1, 3))
     ops = draw(st.lists(st.one_of(
         st.fixed_dictionaries({"op": st.just("lin"), "ins": st.lists(st.integers(0, 5), min_size=1, max_size=3),
@@ -124,6 +134,9 @@ def compositions(draw):
         "ext": [{"size": draw(st.integers(1, 2)), "letter": draw(st.integers(0, len(LETTERS) - 1))} for _ in range(n_ext)],
         "root": root,
         "sum_size": draw(st.integers(1, 2)),
+        # additive tops: number of summed outputs, and an optional downstream leaf (MDOChain([additive chain, leaf]))
+        "n_sums": n_sums,
+        "tail": tail,
         "shuffle": draw(st.integers(0, 5039)),
         # cache of the top-level process: the default single-entry cache or one keeping every evaluation
         "cache": draw(st.sampled_from(["simple", "simple", "memory_full"])),
@@ -149,10 +162,22 @@ class Built:
         self.overwrites = 0
         self.leaves: list[dict] = []
         allow_over = self.top == "tree"
-        self.sum_name = None
+        self.sum_names: list[str] = []
+        self.add_node = None
         if self.top == "additive":
-            self.sum_name = self._new_name(2, int(p["sum_size"]))
+            self.sum_names = [self._new_name(2, int(p["sum_size"])) for _ in range(int(p.get("n_sums", 1)))]
+        self.sum_name = self.sum_names[0] if self.sum_names else None
         self.tree = self._resolve(p["root"], list(self.ext), allow_over, is_root=True)
+        if self.top == "additive":
+            self.add_node = self.tree
+            self.add_node["additive"] = True
+            add_sum_output(self)
+            if p.get("tail"):
+                # a downstream leaf: the sums are the most recent variables it sees
+                others = [n for n in written_names(self.add_node) if n not in self.ext and n not in self.sum_names]
+                visible = list(self.ext) + others + list(self.sum_names)
+                tail = self._resolve(p["tail"], visible, False)
+                self.tree = {"k": "chain", "c": [self.add_node, tail], "threads": 1}
 
     def _new_name(self, letter: int, size: int) -> str:
         name = f"{LETTERS[int(letter) % len(LETTERS)]}{self.counter}"
@@ -176,7 +201,7 @@ class Built:
                     over = o["over"]
                     # ["in", k]: update one of the leaf's own inputs in place; k: overwrite any visible variable
                     cand = ins[int(over[1]) % len(ins)] if isinstance(over, list) else visible[int(over) % len(visible)]
-                    if self.sizes[cand] == size and cand not in outs and cand != self.sum_name:
+                    if self.sizes[cand] == size and cand not in outs and cand not in self.sum_names:
                         name = cand
                         self.overwrites += 1
                 if name is None:
@@ -216,6 +241,18 @@ class Built:
                 r = self._resolve_parallel_child(c, seen, allow_over, taken)
                 children.append(r)
                 taken.update(written_names(r))
+            share = int(node.get("share") or 0) if self.top == "tree" else 0
+            if share and len(children) >= 2:
+                la, lb = last_leaf(children[0]), last_leaf(children[-1])
+                oa, ob = la["outs"][0], lb["outs"][0]
+                if oa != ob and oa not in visible and ob not in visible and self.sizes[oa] == self.sizes[ob] and oa not in lb["outs"]:
+                    lb["outs"][0] = oa
+                    lb["terms"] = {(oa if k == ob else k): v for k, v in lb["terms"].items()}
+                    lb.setdefault("shared", []).append(oa)
+                    if share == 2 and children[0]["k"] == "leaf" and children[-1]["k"] == "leaf":
+                        for u in la["ins"]:
+                            if u not in lb["ins"]:
+                                lb["ins"].append(u)
         return {"k": kind, "c": children, "threads": int(node.get("threads", 1))}
 
     def _resolve_parallel_child(self, node, visible, allow_over, taken):
@@ -229,6 +266,10 @@ class Built:
             self.counter, self.overwrites, self.sizes = counter, over, sizes
             r = self._resolve(node, list(visible), False)
         return r
+
+
+def last_leaf(node):
+    return node if node["k"] == "leaf" else last_leaf(node["c"][-1])
 
 
 def written_names(node) -> list[str]:
@@ -261,20 +302,18 @@ def read_before_write(node, written: set[str], reads: list[str]) -> set[str]:
 
 
 def add_sum_output(built: Built):
-    """Additive chain: every child of the root writes the summed variable (appended to its last leaf)."""
-    def last_leaf(node):
-        return node if node["k"] == "leaf" else last_leaf(node["c"][-1])
-
-    for idx, child in enumerate(built.tree["c"]):
-        leaf = last_leaf(child)
-        size = built.sizes[built.sum_name]
-        comps = []
-        for k in range(size):
-            pos = (idx + k) % len(leaf["ins"])
-            comp = k % built.sizes[leaf["ins"][pos]]
-            comps.append([[float(idx + 1), [pos, comp]], [0.5, [pos, comp], [0, 0]]])
-        leaf["outs"].append(built.sum_name)
-        leaf["terms"][built.sum_name] = comps
+    """Additive chain: every child of the additive node writes every summed variable (appended to its last leaf)."""
+    for q, sum_name in enumerate(built.sum_names):
+        for idx, child in enumerate(built.add_node["c"]):
+            leaf = last_leaf(child)
+            size = built.sizes[sum_name]
+            comps = []
+            for k in range(size):
+                pos = (idx + k + q) % len(leaf["ins"])
+                comp = (k + q) % built.sizes[leaf["ins"][pos]]
+                comps.append([[float(idx + 1 + 2 * q), [pos, comp]], [0.5 + q, [pos, comp], [0, 0]]])
+            leaf["outs"].append(sum_name)
+            leaf["terms"][sum_name] = comps
 
 
 def build_process(built: Built):
@@ -294,6 +333,8 @@ def build_process(built: Built):
         subs = [build(c) for c in node["c"]]
         if node["k"] == "chain":
             return MDOChain(subs)
+        if node.get("additive"):
+            return MDOAdditiveChain(subs, list(built.sum_names), n_processes=1)
         return MDOParallelChain(subs, n_processes=node["threads"])
 
     if built.top in ("mda", "mda_lin"):
@@ -301,8 +342,6 @@ def build_process(built: Built):
         order = nth_permutation(len(discs), int(built.p["shuffle"]))
         return MDAChain([discs[i] for i in order], chain_linearize=built.top == "mda_lin", tolerance=1e-12, max_mda_iter=5,
                         inner_mda_settings={"n_processes": 1})
-    if built.top == "additive":
-        return MDOAdditiveChain([build(c) for c in built.tree["c"]], [built.sum_name], n_processes=1)
     if built.tree["k"] == "leaf":
         return MDOChain([build(built.tree)])
     return build(built.tree)
@@ -348,7 +387,7 @@ def ref_forward(built: Built, point: dict[str, np.ndarray]):
         for c in node["c"]:
             w = run(c, env)
             for name in w[0]:
-                if name == built.sum_name and name in writes[0]:
+                if node.get("additive") and name in built.sum_names and name in writes[0]:
                     writes[0][name] = writes[0][name] + w[0][name]
                     writes[1][name] = {x: writes[1][name][x] + w[1][name][x] for x in ext}
                     writes[2][name] = {x: writes[2][name][x] + w[2][name][x] for x in ext}
@@ -367,21 +406,21 @@ def ref_forward(built: Built, point: dict[str, np.ndarray]):
 # --------------------------------------------------------------------------- oracle
 def case_chain_rule(p, ctx):
     built = Built(p)
-    if built.top == "additive":
-        add_sum_output(built)
     if built.top == "additive" and any(leaf["jac"] == "operator" for leaf in built.leaves) \
             and ctx.known("additive_with_jacobian_operator"):
         return  # C09-F2: the builtin sum() of additive_chain.py cannot add JacobianOperator blocks
+    # writers of a name; the members of ONE parallel node deliberately sharing an output name count once
     writers: dict[str, int] = {}
     for leaf in built.leaves:
         for o in leaf["outs"]:
-            writers[o] = writers.get(o, 0) + 1
-    two_producers = any(v >= 2 for k, v in writers.items() if k != built.sum_name)
+            if o not in leaf.get("shared", ()):
+                writers[o] = writers.get(o, 0) + 1
+    two_producers = any(v >= 2 for k, v in writers.items() if k not in built.sum_names)
     # a leaf writes, without reading it, a name that is also written by another leaf or read from outside by the process
     reads0: list[str] = []
     read_before_write({"k": "chain", "c": built.leaves} if built.top in ("mda", "mda_lin") else built.tree, set(), reads0)
     redefined = any(
-        o not in leaf["ins"] and o != built.sum_name and (writers[o] >= 2 or o in reads0)
+        o not in leaf["ins"] and o not in built.sum_names and o not in leaf.get("shared", ()) and (writers[o] >= 2 or o in reads0)
         for leaf in built.leaves for o in leaf["outs"]
     )
     if redefined and ctx.known("variable_redefined_without_being_read"):
@@ -392,6 +431,9 @@ def case_chain_rule(p, ctx):
     if built.top == "tree" and contaminated_accumulation(built.tree) and \
             ctx.known("inplace_variable_composed_after_a_sibling_output"):
         return  # C09-F8
+    if built.top == "tree" and shared_output_earlier_reads_more(built.tree) and \
+            ctx.known("parallel_shared_output_earlier_member_reads_more"):
+        return  # C09-F10
     process = build_process(built)
     if p.get("cache", "simple") == "memory_full":
         process.set_cache(process.CacheType.MEMORY_FULL, is_memory_shared=False)
@@ -435,8 +477,10 @@ def case_chain_rule(p, ctx):
     d_in: list[str] = []
     d_out: list[str] = []
     answered_subset = False
+    partial_sum_request = False
     n_lin = 0
-    chain_top_full_cache = built.top == "tree" and built.tree["k"] != "parallel" and p.get("cache", "simple") == "memory_full"
+    chain_top = (built.top == "tree" and built.tree["k"] != "parallel") or (built.top == "additive" and built.tree["k"] == "chain")
+    chain_top_full_cache = chain_top and p.get("cache", "simple") == "memory_full"
     seen_inputs: list[tuple] = []  # input data the process really executed, in order
     for step, op in enumerate(p["ops"]):
         k = int(op["pt"]) % len(points)
@@ -464,11 +508,11 @@ def case_chain_rule(p, ctx):
             d_out = sorted(set(d_out) | set(new_out))
             if built.top == "additive" and ctx.known("additive_request_without_summed_output", count=False):
                 member_inputs = []
-                for child in built.tree["c"]:
+                for child in built.add_node["c"]:
                     reads_c: list[str] = []
                     read_before_write(child, set(), reads_c)
                     member_inputs.append(set(reads_c))
-                if built.sum_name not in d_out or any(not (m & set(d_in)) for m in member_inputs):
+                if not set(built.sum_names) <= set(d_out) or any(not (m & set(d_in)) for m in member_inputs):
                     ctx.known("additive_request_without_summed_output")
                     return  # C09-F1: the linearize call below raises KeyError / AssertionError
             if built.top == "mda" and not coupling_on_a_path(built, d_in, d_out) and \
@@ -506,6 +550,11 @@ def case_chain_rule(p, ctx):
                       step=step)
         if op["op"] == "lin" and len(pairs) < len(in_names) * len(out_names):
             answered_subset = True
+        if op["op"] == "lin" and built.sum_names:
+            requested_sums = set(built.sum_names) & set(d_out)
+            tail_only = built.tree["k"] == "chain" and bool(set(d_out) & set(built.tree["c"][1]["outs"]))
+            if 0 < len(requested_sums) < len(built.sum_names) or (not requested_sums and tail_only):
+                partial_sum_request = True
 
     # ---- classification
     _, _, r_paths = refs[0]
@@ -539,6 +588,15 @@ def case_chain_rule(p, ctx):
         ctx.cls("sparse_jacobian")
     if has_kind(built.tree, "parallel") and built.top == "tree":
         ctx.cls("parallel_node")
+    if any(leaf.get("shared") for leaf in built.leaves):
+        ctx.cls("parallel_members_share_an_output_name")
+    if built.top == "additive":
+        if len(built.sum_names) >= 2:
+            ctx.cls("additive_two_sums")
+            if partial_sum_request:
+                ctx.cls("additive_two_sums_partial_request")
+        if built.tree["k"] == "chain":
+            ctx.cls("additive_nested_in_chain")
     if nested(built.tree) and built.top == "tree":
         ctx.cls("nested_process")
     if (diamond or built.overwrites) and answered_subset:
@@ -599,6 +657,24 @@ def contaminated_accumulation(node) -> bool:
                     if w != v and (w < v or w in both) and v in later_reads and w in later_reads:
                         return True
     return any(contaminated_accumulation(c) for c in node["c"])
+
+
+def shared_output_earlier_reads_more(node) -> bool:
+    """A parallel node where a name is written by several children and an earlier writer reads a variable the last writer does not."""
+    if node["k"] == "leaf":
+        return False
+    if node["k"] == "parallel" and not node.get("additive"):
+        infos = []
+        for c in node["c"]:
+            reads: list[str] = []
+            read_before_write(c, set(), reads)
+            infos.append((set(written_names(c)), set(reads)))
+        for idx, (outs, reads) in enumerate(infos):
+            for name in outs:
+                later = [k for k in range(idx + 1, len(infos)) if name in infos[k][0]]
+                if later and reads - infos[later[-1]][1]:
+                    return True
+    return any(shared_output_earlier_reads_more(c) for c in node["c"])
 
 
 def coupling_on_a_path(built: Built, d_in, d_out) -> bool:
@@ -691,6 +767,27 @@ def scenarios():
                    _mk_leaf([0], [_mk_out(sq)]), _mk_leaf([0, 1], [_mk_out([[[1.0, [0, 0], [0, 0]], [1.0, [1, 0]]]])])]},
                "ops": [{"op": "exec", "pt": 0}, {"op": "exec", "pt": 1}, {"op": "all", "pt": 0},
                        {"op": "lin", "ins": [0], "outs": [0], "pt": 1}]}
+
+
+    # parallel members writing the same output from the same input (the later one has the priority), alone and
+    # followed by a reader in an enclosing chain
+    two = {"k": "parallel", "threads": 1, "share": 1, "c": [
+        _mk_leaf([0], [_mk_out(sq)]), _mk_leaf([0], [_mk_out([[[3.0, [0, 0]]]])])]}
+    yield {"top": "tree", "sum_size": 1, "shuffle": 0, "points": [[3]], "cache": "simple", "moved": None,
+           "ext": [{"letter": 0, "size": 1}], "root": two, "ops": [{"op": "all", "pt": 0}, {"op": "lin", "ins": [0], "outs": [0], "pt": 1}]}
+    yield {"top": "tree", "sum_size": 1, "shuffle": 0, "points": [[3]], "cache": "simple", "moved": None,
+           "ext": [{"letter": 0, "size": 1}],
+           "root": {"k": "chain", "threads": 1, "c": [two, _mk_leaf([0], [_mk_out(sq)])]},
+           "ops": [{"op": "lin", "ins": [0], "outs": [1], "pt": 0}, {"op": "all", "pt": 0}]}
+    # additive chain with two summed outputs: one of them requested first, alone and through a downstream leaf
+    members = {"k": "parallel", "threads": 1, "c": [_mk_leaf([0], [_mk_out(sq)]), _mk_leaf([0], [_mk_out(lin)])]}
+    add2 = {"top": "additive", "sum_size": 1, "n_sums": 2, "shuffle": 0, "points": [[3]], "cache": "simple", "moved": None,
+            "ext": [{"letter": 0, "size": 1}], "root": members}
+    for k in (0, 1):
+        yield {**add2, "tail": None, "ops": [{"op": "lin", "ins": [0], "outs": [2 + k], "pt": 0}, {"op": "all", "pt": 0}]}
+        # the tail reads one sum only (index 0: the last sum, 1: the first one); its output is the only one requested
+        yield {**add2, "tail": _mk_leaf([k], [_mk_out(sq)]), "ops": [{"op": "lin", "ins": [0], "outs": [2], "pt": 0},
+                                                                     {"op": "all", "pt": 0}]}
 
 
 ORACLES = {"chain_rule": case_chain_rule, "scenarios": case_chain_rule}
